@@ -18,6 +18,7 @@ RULE = ("(a) histories: array shape (1-D length 1-6, 2-D up to 4x4), contents mi
         "F_p the witness space is enumerated completely - outside [0,len) there must be no satisfying assignment, inside "
         "the read result (every element after a write) must be uniquely the model's. Non-trivial = secret index, length "
         ">= 2 and a write followed by a read of another position (a); every instance of (b); distinct by case digest.")
+RULE += " Extensions (seeded rounds 10-15): arrays of 3 and 4 dimensions with tuple indices of every length, outside positions on arrays of 1-200 (thorough 1023) elements with errors ignored."
 
 
 def mk_array(ns, shape, contents, secret_mask, same_rows=()):
